@@ -73,6 +73,24 @@ enum Case {
     /// h1 head phase: request (h1::Codec) or response (h1::ClientCodec) head bytes (run-length hex)
     #[serde(rename = "head")]
     Head { resp: bool, data: String },
+    /// EntityTag::from_str input (hex)
+    #[serde(rename = "etag")]
+    Etag { s: String },
+    /// QualityItem::<String>::from_str input (hex)
+    #[serde(rename = "qitem")]
+    QItem { s: String },
+    /// If-None-Match header values (hex) through IfNoneMatch::parse
+    #[serde(rename = "inm")]
+    Inm { vals: Vec<String> },
+    /// If-Range header value (hex) through IfRange::parse
+    #[serde(rename = "ifrange")]
+    IfRange { v: Option<String> },
+    /// Accept-Encoding header values (hex) through AcceptEncoding::parse
+    #[serde(rename = "ae")]
+    AcceptEnc { vals: Vec<String> },
+    /// ContentRangeSpec::from_str input (hex)
+    #[serde(rename = "crange")]
+    CRange { s: String },
     /// exploration: entry point, input bytes (run-length hex), segmentation, parameters
     #[serde(rename = "x")]
     X {
@@ -211,6 +229,66 @@ fn emit_typed(em: &mut Emitter, id: String, c: &Case) {
                 (Some(v), verdict)
             });
             (coq, r, Box::new(|v: &V| v.show().contains("ok(")))
+        }
+        Case::Etag { s } => {
+            let sb = unhex(s);
+            tags.push("core:entity-tag".into());
+            tags.push(format!("size:{}", size_tag(sb.len())));
+            let coq = format!("KEtag {}", coq_bytes(&sb));
+            let r = guarded(|| {
+                let (v, verdict) = typed::run_etag(&sb);
+                (Some(v), verdict)
+            });
+            (coq, r, Box::new(|v: &V| matches!(v, V::T("etag", _))))
+        }
+        Case::QItem { s } => {
+            let sb = unhex(s);
+            tags.push("core:quality-item".into());
+            tags.push(format!("size:{}", size_tag(sb.len())));
+            let coq = format!("KQItem {} {}", coq_bytes(&sb), typed::coq_qtab(&typed::q_table(&[&sb[..]])));
+            let r = guarded(|| {
+                let (v, verdict) = typed::run_qitem(&sb);
+                (Some(v), verdict)
+            });
+            (coq, r, Box::new(|v: &V| matches!(v, V::T("qi", _))))
+        }
+        Case::Inm { vals } => {
+            let vs: Vec<Vec<u8>> = vals.iter().map(|h| unhex(h)).collect();
+            tags.push("core:if-none-match".into());
+            tags.push(format!("lines:{}", vs.len().min(3)));
+            let coq = format!("KIfNoneMatch {}", coq_list(&vs, |b| coq_bytes(b)));
+            let r = guarded(|| (typed::run_inm(&vs), Ok(())));
+            (coq, r, Box::new(|v: &V| matches!(v, V::T("any", _)) || (matches!(v, V::T("items", _)) && v.show() != "items([])")))
+        }
+        Case::IfRange { v } => {
+            let vb = v.as_ref().map(|h| unhex(h));
+            tags.push("core:if-range".into());
+            let coq = format!("KIfRange {}", coq_opt(&vb, |b| coq_bytes(b)));
+            let r = guarded(|| (typed::run_ifrange(&vb), Ok(())));
+            (coq, r, Box::new(|v: &V| matches!(v, V::T("etag", _))))
+        }
+        Case::AcceptEnc { vals } => {
+            let vs: Vec<Vec<u8>> = vals.iter().map(|h| unhex(h)).collect();
+            tags.push("core:accept-encoding".into());
+            tags.push(format!("lines:{}", vs.len().min(3)));
+            let pieces: Vec<&[u8]> = vs.iter().flat_map(|v| v.split(|b| *b == b',')).collect();
+            let coq = format!("KAcceptEnc {} {}", coq_list(&vs, |b| coq_bytes(b)), typed::coq_qtab(&typed::q_table(&pieces)));
+            let r = guarded(|| match typed::run_ae(&vs) {
+                Some((v, verdict)) => (Some(v), verdict),
+                None => (None, Ok(())),
+            });
+            (coq, r, Box::new(|v: &V| matches!(v, V::T("ae", _)) && v.show() != "ae([])"))
+        }
+        Case::CRange { s } => {
+            let sb = unhex(s);
+            tags.push("core:content-range".into());
+            tags.push(format!("size:{}", size_tag(sb.len())));
+            let coq = format!("KCRange {}", coq_bytes(&sb));
+            let r = guarded(|| {
+                let (v, verdict) = typed::run_crange(&sb);
+                (Some(v), verdict)
+            });
+            (coq, r, Box::new(|v: &V| matches!(v, V::T("bytes", _) | V::T("unreg", _))))
         }
         Case::X { .. } => unreachable!(),
     };
@@ -543,6 +621,82 @@ fn gen_enc(rng: &mut Rng) -> Case {
     let dlen = *rng.pick(&[0usize, 0, 1, 17, 100, 4000, 8191]);
     let cap = *rng.pick(&[0usize, 1, 16, 64, 128, 1024, 4096, 8192]);
     Case::Enc { dlen, cap, hdrs, camel: rng.chance(1, 4) }
+}
+
+// --- typed headers: shared parsers
+
+const ETAG_BASE: &[&str] = &[
+    "\"xyzzy\"", "W/\"xyzzy\"", "\"\"", "W/\"\"", "\"", "W/\"", "W/", "W", "\"\"\"", "\"a\"b\"", "w/\"x\"", "W/\"a b\"",
+    "\"\u{e9}t\u{e9}\"", "\u{e9}\"", "W/\"\u{20ac}\"", "\"a", "a\"", "", " \"a\"", "\"a\" ", "W/\"\"\"", "\"\u{7f}\"", "*",
+];
+const QITEM_BASE: &[&str] = &[
+    "gzip", "gzip;q=0.5", "gzip; q=0.123", "br ;Q=1", "*;q=0", "x;q=1.000", "x;q=0.0001", "x;q=1.001", "x;q=2", "x;q=-0",
+    "x;q=1e-3", "x;q=.5", "x;q=5.", "x;q=NaN", "x;q=inf", "x;q=+0.5", "x;q", "x;", "x; ", "x;q=", "x;a=b;q=0.3", "x;q=0.3;a=b",
+    ";q=1", ";", "", "text/html;level=1", "\u{e9};q=1", "x;q=0.5 ", "x ; q = 0.5", "x;Q=0.29", "x;q=0.999", "x;qq=1", "x;\u{a0}q=1",
+];
+const INM_BASE: &[&str] = &[
+    "\"xyzzy\"", "W/\"xyzzy\"", "\"xyzzy\", \"r2d2xxxx\", \"c3piozzzz\"", "W/\"a\", W/\"b\"", "*", " * ", "*, \"a\"", "\"a\", *",
+    ",,", "", "\"a,b\"", "\"a\",", "\"", "W/\"", "a, \"b\" ,W/\"c\"", "\"a\"\t,\t\"b\"",
+];
+const IFRANGE_BASE: &[&str] = &["\"etag\"", "W/\"etag\"", "Sat, 29 Oct 1994 19:43:31 GMT", "\"", "W/\"", "", "x", "\"a\" "];
+const AE_BASE: &[&str] = &[
+    "gzip", "gzip, deflate", "gzip;q=1.0, br;q=0.9, identity;q=0, *;q=0.1", "GZIP;Q=0.5", " zstd ; q=0.001", "*", "*;q=0",
+    "compress, gzip", "", ",", "gzip;", "gzip;q", "gzip;q=", "gzip;q=1.0000", "br;q=1e0", "x;y;q=0.5", "identity; q=0.29, *; q=.7",
+    " Br , gzip ;q=0.8", "gzip;q=0.5;q=0.6", "de\u{66}late",
+];
+const CRANGE_BASE: &[&str] = &[
+    "bytes 0-499/500", "bytes 0-499/*", "bytes */500", "bytes */*", "seconds 1-2", "bytes 0-499", "bytes", "bytes 499-0/500", "",
+    "bytes 1-2/500 3", "bytes 1-2/500/600", "bytes 1-2-3/500", "bytes  1-2/3", " bytes 1-2/3", "bytes +1-+2/+3",
+    "bytes 0-18446744073709551615/18446744073709551615", "bytes 0-18446744073709551616/1", "bytes -/", "bytes /", "bytes -1/1",
+    "Bytes 1-2/3", " ", "x ", " y", "bytes 5-5/1",
+];
+
+fn gen_str(rng: &mut Rng, base: &[&str], alphabet: &[&str], max: usize, header_value: bool) -> Vec<u8> {
+    let b = rng.pick(base).as_bytes().to_vec();
+    let mut v = match rng.below(10) {
+        0..=3 => b,
+        4..=6 => {
+            let mut s = String::new();
+            for _ in 0..rng.range(0, 7) {
+                s.push_str(*rng.pick(alphabet));
+            }
+            s.into_bytes()
+        }
+        7..=8 => mutate(rng, &b, 2).0,
+        _ => random_bytes(rng, 12),
+    };
+    v.truncate(max);
+    if header_value {
+        typed::sanitize_hv(&mut v);
+    }
+    v
+}
+
+const ETAG_ALPHA: &[&str] = &["\"", "\"", "W/", "W/\"", "a", "xyz", " ", "\u{e9}", "\\", ",", "w/", "W", "/"];
+const QITEM_ALPHA: &[&str] = &["gzip", ";", ";", "q=", "Q=", "q", "=", "0.5", "1", "0", ".", "0.123", "1.000", " ", "\t", "*", "e-1", "x", "\u{e9}"];
+const AE_ALPHA: &[&str] = &["gzip", "br", "BR", "deflate", "identity", "zstd", "*", ",", ", ", ";", ";q=", "; q=", "0.5", "1", "0", "0.001", "1.1", " ", "x", "="];
+const CRANGE_ALPHA: &[&str] = &["bytes", " ", " ", "/", "-", "*", "0", "1", "499", "500", "18446744073709551615", "18446744073709551616", "+", "x", "\u{a0}"];
+
+fn gen_etag(rng: &mut Rng) -> Case {
+    Case::Etag { s: hex(&gen_str(rng, ETAG_BASE, ETAG_ALPHA, 80, false)) }
+}
+fn gen_qitem(rng: &mut Rng) -> Case {
+    Case::QItem { s: hex(&gen_str(rng, QITEM_BASE, QITEM_ALPHA, 80, false)) }
+}
+fn gen_inm(rng: &mut Rng) -> Case {
+    let n = *rng.pick(&[0usize, 1, 1, 1, 1, 2, 3]);
+    Case::Inm { vals: (0..n).map(|_| hex(&gen_str(rng, INM_BASE, ETAG_ALPHA, 120, true))).collect() }
+}
+fn gen_ifrange(rng: &mut Rng) -> Case {
+    let v = if rng.chance(1, 10) { None } else { Some(hex(&gen_str(rng, IFRANGE_BASE, ETAG_ALPHA, 80, true))) };
+    Case::IfRange { v }
+}
+fn gen_ae(rng: &mut Rng) -> Case {
+    let n = *rng.pick(&[0usize, 1, 1, 1, 1, 2, 3]);
+    Case::AcceptEnc { vals: (0..n).map(|_| hex(&gen_str(rng, AE_BASE, AE_ALPHA, 120, true))).collect() }
+}
+fn gen_crange(rng: &mut Rng) -> Case {
+    Case::CRange { s: hex(&gen_str(rng, CRANGE_BASE, CRANGE_ALPHA, 80, false)) }
 }
 
 // --- exploration templates
@@ -956,6 +1110,21 @@ fn generate(rng: &mut Rng, em: &mut Emitter, factor: f64) {
         let mut r = rng.fork();
         emit_case(em, next_id("head"), &gen_head(&mut r, i));
     }
+    type Gen = fn(&mut Rng) -> Case;
+    let typed_gens: &[(&str, usize, Gen)] = &[
+        ("etag", 150, gen_etag),
+        ("qitem", 150, gen_qitem),
+        ("inm", 100, gen_inm),
+        ("ifrange", 40, gen_ifrange),
+        ("ae", 120, gen_ae),
+        ("crange", 100, gen_crange),
+    ];
+    for (name, n, g) in typed_gens {
+        for _ in 0..cnt(*n) {
+            let mut r = rng.fork();
+            emit_case(em, next_id(name), &g(&mut r));
+        }
+    }
     // ---- exploration
     for _ in 0..cnt(700) {
         let mut r = rng.fork();
@@ -1118,9 +1287,9 @@ fn main() {
     }
     if args.case.is_none() {
         let mut rng = Rng::new(args.seed);
-        // --n = approximate total number of generated cases (default 7730 quick, x6 thorough)
+        // --n = approximate total number of generated cases (default 8390 quick, x6 thorough)
         let factor = match args.n {
-            Some(n) => n as f64 / 7730.0,
+            Some(n) => n as f64 / 8390.0,
             None => {
                 if args.thorough() {
                     6.0
